@@ -177,6 +177,42 @@ int cmdResave(int argc, char** argv) {
 					if (!any) break;
 					measure(nif, def != 0, caseOf(k), "inexact-values", out);
 				}
+				// the vertex format changes through the API (colours taken away or given) with no partition rebuild afterwards
+				for (int def = 0; def < 2; def++) {
+					NifFile nif;
+					if (loadFromString(nif, bytes) != 0) return;
+					bool any = false;
+					for (auto sh : nif.GetShapes()) {
+						uint16_t nvv = sh->GetNumVertices();
+						if (nvv == 0 || nvv > 20000) continue;
+						if (sh->HasVertexColors()) sh->SetVertexColors(false);
+						else {
+							std::vector<Color4> cc(nvv, Color4(0.5f, 0.25f, 1.0f, 1.0f));
+							nif.SetColorsForShape(sh, cc);
+						}
+						any = true;
+					}
+					if (!any) break;
+					measure(nif, def != 0, caseOf(k), "vertex-format-changed", out);
+				}
+				// the neighbouring stream version of the same game (Starfield: 172 and 173)
+				{
+					size_t eol = bytes.find('\n');
+					if (eol != std::string::npos && bytes.size() > eol + 18) {
+						uint32_t stream = 0;
+						memcpy(&stream, &bytes[eol + 14], 4);
+						if (stream == 172) {
+							std::string nb = bytes;
+							uint32_t other = 173;
+							memcpy(&nb[eol + 14], &other, 4);
+							for (int def = 0; def < 2; def++) {
+								NifFile nif;
+								if (loadFromString(nif, nb) != 0) break;
+								measure(nif, def != 0, caseOf(k), "stream-173", out);
+							}
+						}
+					}
+				}
 				// the skin of the first skinned shape gets a skeleton root of its own (a node added last, so that a sorting save
 				// moves it)
 				for (int def = 0; def < 2; def++) {
